@@ -1,0 +1,39 @@
+//go:build verif
+
+package distance
+
+import "sync/atomic"
+
+// VerifLenMismatch is called, when set, whenever a float distance kernel is
+// invoked with operands of different lengths. The file name sorts last so that
+// this init runs after the architecture specific init has picked the kernels.
+var VerifLenMismatch atomic.Pointer[func(kernel string, lx, ly int)]
+
+var verifRawDot, verifRawEuc FloatDistFunc
+
+func init() {
+	verifRawDot = dotProductImpl
+	verifRawEuc = euclideanDistance
+	dotProductImpl = func(x, y []float32) float32 {
+		if len(x) != len(y) {
+			if f := VerifLenMismatch.Load(); f != nil {
+				(*f)("dot", len(x), len(y))
+			}
+		}
+		return verifRawDot(x, y)
+	}
+	euclideanDistance = func(x, y []float32) float32 {
+		if len(x) != len(y) {
+			if f := VerifLenMismatch.Load(); f != nil {
+				(*f)("euclidean", len(x), len(y))
+			}
+		}
+		return verifRawEuc(x, y)
+	}
+}
+
+// VerifRawKernels returns the dot product and squared euclidean kernels that
+// the architecture specific init selected, without the length checks.
+func VerifRawKernels() (dot, euclidean FloatDistFunc) {
+	return verifRawDot, verifRawEuc
+}
